@@ -256,6 +256,65 @@ def _goal_str(g, n=160):
     return " ".join(s.split())[:n]
 
 
+def isolated(fn, args, timeout, default):
+    """run fn(*args) in a forked child with a wall-clock limit: replays / float runs execute compiled code (qhull, solvers) on arbitrary inputs
+    and must not be able to hang or crash the check.  (os.fork directly: pool workers are daemonic and may not use multiprocessing.Process)"""
+    import pickle
+    import select
+    import signal
+    rd, wr = os.pipe()
+    pid = os.fork()
+    if pid == 0:  # child
+        try:
+            os.close(rd)
+            try:
+                out = fn(*args)
+            except BaseException as e:  # noqa
+                out = ("__error__", repr(e))
+            try:
+                data = pickle.dumps(out)
+            except Exception as e:  # noqa
+                data = pickle.dumps(("__error__", "unpicklable result: " + repr(e)))
+            with os.fdopen(wr, "wb") as f:
+                f.write(data)
+        finally:
+            os._exit(0)
+    os.close(wr)
+    chunks = []
+    deadline = time.time() + timeout
+    done = False
+    while True:
+        left = deadline - time.time()
+        if left <= 0:
+            break
+        r, _, _ = select.select([rd], [], [], min(left, 1.0))
+        if r:
+            c = os.read(rd, 1 << 20)
+            if not c:
+                done = True
+                break
+            chunks.append(c)
+    os.close(rd)
+    if not done:
+        try:
+            os.kill(pid, signal.SIGKILL)
+        except ProcessLookupError:
+            pass
+    try:
+        os.waitpid(pid, 0)
+    except ChildProcessError:
+        pass
+    if not done or not chunks:
+        return default
+    try:
+        out = pickle.loads(b"".join(chunks))
+    except Exception:
+        return default
+    if isinstance(out, tuple) and len(out) == 2 and out[0] == "__error__":
+        return default
+    return out
+
+
 class CaseResult(dict):
     pass
 
@@ -415,6 +474,36 @@ def run_float(body, kwargs, values, tol=1e-6):
     return out, m, None
 
 
+class _ExcProxy(Exception):
+    """exception of the float run, carried across the process boundary"""
+
+    def __init__(self, name, text):
+        Exception.__init__(self, text)
+        self.name = name
+
+
+def _exc_name(e):
+    return getattr(e, "name", type(e).__name__)
+
+
+def _float_run(body, kwargs, seed):
+    fm = M("float", rng=np.random.default_rng(seed))
+    try:
+        goals = body(fm, **kwargs) or {}
+        exc = None
+    except SkipSample:
+        return ("skip",)
+    except Exception as e:
+        goals, exc = {}, (type(e).__name__, str(e)[:300])
+    obs = {}
+    for k, v in fm.observed.items():
+        try:
+            obs[k] = np.asarray(v, dtype=float)
+        except Exception:
+            pass
+    return ("ok", fm.values, {k: bool(split_goal(g)[0]) for k, g in goals.items()}, obs, exc)
+
+
 def validate_case(body, kwargs, patches, n=2, seed=0, timeout_ms=30000):
     """translator validation: the same body on the same random inputs, (a) real code / real numpy / floats,
     (b) patched code on exact rational constants.  Goals must hold in both, observables must agree."""
@@ -423,19 +512,20 @@ def validate_case(body, kwargs, patches, n=2, seed=0, timeout_ms=30000):
     tries = 0
     while info["runs"] < n and tries < 6 * max(n, 1):
         tries += 1
-        fm = M("float", rng=rng)
-        fexc = None
-        try:
-            fgoals = body(fm, **kwargs) or {}
-        except SkipSample:
+        # the float half runs real compiled code (qhull, solvers): isolate it with a time limit
+        fr = isolated(_float_run, (body, kwargs, int(rng.integers(0, 2 ** 31))), 300, ("timeout",))
+        if fr[0] == "skip":
             info["skipped"] += 1
             continue
-        except Exception as e:
-            fexc, fgoals = e, {}
-        values = fm.values
+        if fr[0] == "timeout":
+            info["mismatch"].append(dict(kind="float-timeout", why="the real code did not return within 300 s on a sampled input"))
+            break
+        _, values, fgoals, fobs, fexc_s = fr
+        fexc = None if fexc_s is None else _ExcProxy(*fexc_s)
+        fm = M("float", values=values)
+        fm.observed = fobs
         info["runs"] += 1
         for label, g in fgoals.items():
-            g = split_goal(g)[0]
             if not bool(g):
                 info["mismatch"].append(dict(kind="float-goal", label=label, values=_jsonable(values)))
         # const run (patched)
@@ -475,8 +565,8 @@ def validate_case(body, kwargs, patches, n=2, seed=0, timeout_ms=30000):
         except Inconclusive as e:
             info["mismatch"].append(dict(kind="const-inconclusive", why=str(e)))
             break
-        if (fexc is None) != (cexc is None) or (fexc is not None and type(fexc).__name__ != type(cexc).__name__):
-            info["mismatch"].append(dict(kind="exception-differs", real=repr(fexc)[:200], sym=repr(cexc)[:200], values=_jsonable(values)))
+        if (fexc is None) != (cexc is None) or (fexc is not None and _exc_name(fexc) != type(cexc).__name__):
+            info["mismatch"].append(dict(kind="exception-differs", real=("None" if fexc is None else f"{_exc_name(fexc)}({str(fexc)[:160]!r})"), sym=repr(cexc)[:200], values=_jsonable(values)))
             continue
         for k, v in cobs.items():
             if k in fm.observed:
